@@ -76,6 +76,10 @@ def preimage(ctx, t, qn):
         return None, None, "np.where argument is not np.isin(...)"
     if kw(inner, "invert") == const(True):
         return False, None, "np.isin(..., invert=True): the complement of the chosen blocks is tested"
+    if kw(inner, "assume_unique") == const(True) or (len(inner[2]) >= 3 and inner[2][2] == const(True)):
+        # numpy: "assume_unique: if True, the input arrays are BOTH assumed to be unique".  The first operand is the per-point label array,
+        # which repeats a block id for every further point of that block: the sort-based shortcut then marks only some points of a block
+        return False, None, "np.isin(labels, ids, assume_unique=True): the per-point labels are not unique (a block with two points repeats its id), numpy's shortcut then selects only part of a block"
     labels, sel = inner[2][0], inner[2][1]
     if not (labels[0] == "sub" and is_int(labels[2]) and labels[1][0] == "call" and callee(labels[1]) == "verde.coordinates.block_split"):
         return None, None, "labels are not an element of a block_split result"
